@@ -105,6 +105,19 @@ func setParameter(msg protoreflect.Message, fields []protoreflect.FieldDescripto
 
 func unmarshalFieldValue(msg protoreflect.Message, field protoreflect.FieldDescriptor, data []byte) (protoreflect.Value, error) {
 	switch kind := field.Kind(); kind {
+	case protoreflect.BoolKind,
+		protoreflect.Int32Kind, protoreflect.Sint32Kind, protoreflect.Sfixed32Kind,
+		protoreflect.Int64Kind, protoreflect.Sint64Kind, protoreflect.Sfixed64Kind,
+		protoreflect.Uint32Kind, protoreflect.Fixed32Kind,
+		protoreflect.Uint64Kind, protoreflect.Fixed64Kind,
+		protoreflect.FloatKind, protoreflect.DoubleKind:
+		// encoding/json leaves the target untouched for "null": the parameter
+		// would be accepted and read as false or zero.
+		if string(bytes.TrimSpace(data)) == "null" {
+			return protoreflect.Value{}, fmt.Errorf("null is not a valid value for a field of type %s", kind)
+		}
+	}
+	switch kind := field.Kind(); kind {
 	case protoreflect.BoolKind:
 		var b bool
 		if err := json.Unmarshal(data, &b); err != nil {
